@@ -315,4 +315,36 @@ theorem RW.run_rep (t0 : Nat) (evs : List (Nat × Nat)) : ∀ (rw : RW) (hist : 
     rw [e1]
     simpa [RW.run] using hstep
 
+/-! ### dropping buckets that cannot hold anything does not change the visited values -/
+
+theorem agesDown_succ (size lo : Nat) (h : lo < size) : agesDown size lo = agesDown size (lo + 1) ++ [lo] := by
+  unfold agesDown
+  have e : size - lo = (size - (lo + 1)) + 1 := by omega
+  rw [e, List.range_succ, List.map_append]
+  congr 1
+  simp only [List.map_cons, List.map_nil, List.cons.injEq, and_true]
+  omega
+
+theorem agesDown_empty (size lo : Nat) (h : size ≤ lo) : agesDown size lo = [] := by
+  unfold agesDown
+  have : size - lo = 0 := by omega
+  rw [this]; rfl
+
+theorem agesDown_flatten_skip (size : Nat) (f : Nat → List Nat) : ∀ (d lo' : Nat),
+    (∀ a, lo' ≤ a → a < lo' + d → f a = []) →
+    ((agesDown size lo').map f).flatten = ((agesDown size (lo' + d)).map f).flatten := by
+  intro d
+  induction d with
+  | zero => intro lo' _; rfl
+  | succ d ih =>
+    intro lo' h
+    have h1 := ih (lo' + 1) (fun a h1 h2 => h a (by omega) (by omega))
+    have e : lo' + 1 + d = lo' + (d + 1) := by omega
+    rw [e] at h1
+    rw [← h1]
+    by_cases hl : lo' < size
+    · rw [agesDown_succ size lo' hl, List.map_append, List.flatten_append]
+      simp [h lo' (Nat.le_refl _) (by omega)]
+    · rw [agesDown_empty size lo' (by omega), agesDown_empty size (lo' + 1) (by omega)]
+
 end GoZero.C16
